@@ -71,6 +71,7 @@ type Contract struct {
 	FrameProps  []string
 	NoSafety    bool
 	Group       string
+	NilSafe     bool // a method that may be called on a nil receiver
 	Export      bool // lemma proved in bv mode and assumed (over the uninterpreted bit functions) in int mode
 	WrapArith   bool // int mode: model wrap-around exactly instead of proving its absence
 }
@@ -123,7 +124,7 @@ var clauseKeywords = map[string]bool{
 	"func": true, "ghost": true, "spec": true, "axiom": true, "arith": true, "requires": true, "ensures": true,
 	"assigns": true, "loop": true, "callsite": true, "trusted": true, "assumed": true, "inline": true, "pure": true,
 	"noreturn": true, "model": true, "safety": true, "case": true, "props": true, "assert": true, "verified-external": true,
-	"params": true, "endcase": true, "global": true, "abstracts": true, "lemma": true, "assume": true, "overflow": true, "macro": true,
+	"params": true, "endcase": true, "global": true, "abstracts": true, "lemma": true, "assume": true, "overflow": true, "macro": true, "nilsafe": true,
 }
 
 // LoadSpecs reads every contract source: //@ lines of zz_contracts_verif.go files
@@ -492,6 +493,8 @@ func (sp *Specs) loadFile(path string, goFile bool) error {
 			case "trusted", "assumed", "model", "inline", "verified-external":
 				cur.Kind = kw
 				cur.Why = strings.Trim(strings.TrimSpace(rest), "\"")
+			case "nilsafe":
+				cur.NilSafe = true
 			case "noreturn":
 				cur.NoReturn = true
 			case "pure":
